@@ -607,10 +607,10 @@ def multi_site(p, n):
     return G.particle_names(p).count(n) > 1
 
 
-def order_promised(p, top=True, heads=()):
+def order_promised(p, top=True):
     """every repeating group is a choice of single elements, or the top-level sequence of single elements.
-    `heads`: element references whose element heads a substitution group with members: such a reference is
-    an (implicit) choice between the head and the members, not a single element"""
+    (A reference to an element that heads a substitution group is a single element particle of the schema:
+    the clause applies to it.)"""
     if "elem" in p:
         return True
     if "choice" in p:
@@ -620,8 +620,35 @@ def order_promised(p, top=True, heads=()):
     if mx > 1:
         # "single elements": each member occurs exactly once per iteration (with optional or
         # repeating members the rolling interleave of sequence fields cannot tell iterations apart)
-        return top and all("elem" in k and k["elem"][1:] == [1, 1] and k["elem"][0] not in heads for k in kids)
-    return all(order_promised(k, False, heads) for k in kids)
+        return top and all("elem" in k and k["elem"][1:] == [1, 1] for k in kids)
+    return all(order_promised(k, False) for k in kids)
+
+
+def has_choice(p):
+    if "elem" in p:
+        return False
+    if "choice" in p:
+        return True
+    return any(has_choice(k) for k in p["seq"][2])
+
+
+def order_clause(p, opts):
+    """does the property promise the element order for this content model under these options: choices of
+    single elements need compound fields; a content model without any choice (its only repeating group is the
+    top-level sequence of single elements) is promised under every configuration"""
+    return order_promised(p) and (bool(opts.get("compound_fields")) or not has_choice(p))
+
+
+def repeating_heads(a):
+    """element references with substitutes that a valid document may use more than once (the reference
+    repeats, or sits in a repeating group)"""
+    heads = {h for _, h in a.get("subs", ()) if h in a.get("refs", ())}
+    out = set()
+    for h in heads:
+        tm = true_max(a["particle"], h)
+        if tm is None or tm > 1:
+            out.add(h)
+    return out
 
 
 def oracle_docs(a):
@@ -637,10 +664,9 @@ def oracle_docs(a):
         schema = etree.XMLSchema(etree.fromstring(xsd.encode()))
     except etree.XMLSchemaParseError:
         return None  # not a valid schema (e.g. non-deterministic content model): outside the property
-    passes = [({}, False)]
-    heads = {h for _, h in a.get("subs", ()) if h in a.get("refs", ())}
+    passes = [({}, order_clause(p, {}))]
     for extra in a.get("configs", []):
-        passes.append((extra, bool(extra.get("compound_fields")) and order_promised(p, heads=heads)))
+        passes.append((extra, order_clause(p, extra)))
     reference = None
     for opts, ordered in passes:
         g = CG.run_pipeline({"s.xsd": xsd}, **opts)
@@ -1038,7 +1064,13 @@ def gen_subst_docs(rng, tier):
 
 
 def covered_subst(a, msg):
-    return None  # element names are distinct
+    """known finding: without compound fields the head of a substitution group and its substitutes are separate
+    list fields; when the reference can occur more than once their interleaving (with each other and with the
+    other members of a repeating sequence) is lost (element names are distinct here, so nothing else is excused;
+    with compound fields the order is kept since fix c02c-01)"""
+    if ("another element order" in msg or "not schema-valid" in msg) and "compound_fields" not in msg and repeating_heads(a):
+        return "C02-substitution-order-without-compound"
+    return None
 
 
 def covered_groups(a, msg):
@@ -1053,6 +1085,9 @@ def covered_docs(a, msg):
         if multi_site(p, n):
             tm = true_max(p, n)
             if (tm is None or tm > 1) and f"}}{n}" in msg or f":{n}" in msg:
+                return "C02-duplicate-name-sites"
+            if "another element order" in msg or "not schema-valid" in msg:
+                # one field per element name: two sites of one name cannot both keep their place
                 return "C02-duplicate-name-sites"
     return None
 
@@ -1086,8 +1121,21 @@ def finding_same_choice_sequence():
     return (msg is not None and "rejected" in msg, msg or "the document now parses")
 
 
+SUBST_ORDER_WITNESS = {
+    "particle": {"seq": [0, MAXSIZE, [{"elem": ["d", 1, 1]}, {"elem": ["c", 1, 1]}]]},
+    "refs": ["d", "c"], "subs": [["m1", "d"]], "words": [["m1", "c", "d", "c"]], "types": None, "configs": [],
+}
+
+
+def finding_subst_order():
+    msg = oracle_docs(SUBST_ORDER_WITNESS)
+    still = msg is not None and "another element order" in msg and covered_subst(SUBST_ORDER_WITNESS, msg) is not None
+    return (still, msg or "the document now comes back in the same order")
+
+
 FINDINGS = {
     "C02-duplicate-name-sites": finding_duplicate_sites,
+    "C02-substitution-order-without-compound": finding_subst_order,
 }
 
 TRUSTED = [
